@@ -392,10 +392,13 @@ func (r *Rel) Invert() Rel {
 //
 // This is the form stored in Schema.Rels.
 func (r *Rel) Normalize() Rel {
-	from := r.FromType + r.FromName
-	to := r.ToType + r.ToName
+	if r.ToName == "" {
+		return *r
+	}
 
-	if from < to || r.ToName == "" {
+	// Types are compared first and then names, so that a relationship and
+	// its inverse always agree on which one comes first.
+	if r.FromType < r.ToType || (r.FromType == r.ToType && r.FromName <= r.ToName) {
 		return *r
 	}
 
